@@ -112,7 +112,9 @@ FstOK(ts, mode, sets, idx, a, b, obs) ==
       C == Raw(ts, mode, "divergence", sets, idx, a, b)          dc == n[i] * n[j]
       num == 2 * C * da * db - A * db * dc - B * da * dc
       den == A * db * dc + 2 * C * da * db + B * da * dc
-  IN RatEq(obs, num, den)
+  \* where d(X) + 2 d(X,Y) + d(Y) = 0 the ratio is undefined (0/0); the library computes it from floating-point sums whose
+  \* rounding residue (1e-16) decides between nan and 1, so such windows are left unconstrained
+  IN den = 0 \/ RatEq(obs, num, den)
 
 \* ---- genetic relatedness (proportion=False) --------------------------------------------
 Prod(q) == FoldSet(LAMBDA i, acc : acc * q[i], 1, DOMAIN q)
